@@ -46,6 +46,13 @@ DataclassUser == {"C17Pair", "C17Tagged", "C17Unit", "C17NoHash", "C17Names",
 \* __init__ (keyword-only fields, fields __init__ does not take): c17_classes.py
 ReorderedUser == {"C17Kw", "C17KwMid", "C17Init", "C17Dfl", "C17Kw2"}
 LegacyUser    == {"C17Old", "C17OldLeaf", "C17OldVar"}
+\* (round 5) leaf SUBCLASSES: classes derived from a stock leaf.  An instance IS a variable
+\* (isinstance(o, Variable)) of the name in its first string field, but it is another class:
+\* it never == the plain Variable of that name.  MultiVectorVariable ships with the library
+\* (pymbolic.geometric_algebra.primitives), the others are user classes of c17_classes.py
+\* (dataclass subclass, legacy subclass, subclass with a keyword-only field).  C17Fn is a
+\* plain subclass of FunctionSymbol (no field of its own, only another mapper method).
+VarLikeUser   == {"MultiVectorVariable", "C17Tagged", "C17OldVar", "C17Kw", "C17Kw2"}
 
 \* children of every kind (the ones of Expr.tla plus the extensions)
 XKids(e) ==
@@ -90,7 +97,18 @@ RECURSIVE XSubExprs(_)
 XSubExprs(e) == {e} \cup UNION {XSubExprs(XKids(e)[i]) : i \in 1..Len(XKids(e))}
 KindsIn(e) == {s.t : s \in XSubExprs(e)}
 UserClassesIn(e) == {s.cls : s \in {u \in XSubExprs(e) : u.t = "User"}}
-VarNames(e) == {s.name : s \in {u \in XSubExprs(e) : u.t = "Var"}}
+IsSubLeaf(e) == e.t = "User" /\ e.cls \in VarLikeUser
+IsVarLeaf(e) == e.t = "Var" \/ IsSubLeaf(e)
+LeafName(e)  == IF e.t = "Var" THEN e.name ELSE e.s[1]
+\* the variables an expression depends on, by name (leaf subclasses are variables)
+VarLeaves(e) == {u \in XSubExprs(e) : IsVarLeaf(u)}
+VarNames(e)  == {LeafName(u) : u \in VarLeaves(e)}
+\* what a compiled function computes does not depend on the CLASS of a variable leaf: an
+\* instance of a Variable subclass stands for the argument of its name
+RECURSIVE Plain(_)
+Plain(e) == IF IsSubLeaf(e) THEN V(e.s[1])
+            ELSE IF e.t \in {"User", "Poly", "Rat", "NaNNode", "FunctionSymbol", "Wild"} THEN e
+            ELSE LET ks == Kids(e) IN WithKids(e, [i \in 1..Len(ks) |-> Plain(ks[i])])
 
 \* hash() is defined for the object (Polynomial / Rational define __eq__ without
 \* __hash__: Python makes such classes unhashable)
@@ -114,8 +132,16 @@ pairx == User("C17Pair", << "tg" >>, << vx, KI(1) >>)
 \*   "omit"    constructor arguments equal to the field defaults are left out
 \*   "alt"     constructor arguments in their alternative accepted spelling, normalised by the
 \*             constructor itself (a comparison operator given by its name, "lt" for "<")
+\* vobj (round 5): HOW the explicitly listed leading variables of a compiled expression are given
+\*   ""       by name (strings)
+\*   "plain"  as Variable objects
+\*   "same"   as the variable objects the expression itself uses for these names - instances of a
+\*            leaf subclass when the expression is written over such (a name the expression does
+\*            not use is given as a plain Variable)
+\* none of which is part of what the compiled function is: signature = listed names, then the rest
 Ent(e, kind, vars, rest, np, src, mode) ==
-    [e |-> e, kind |-> kind, vars |-> vars, rest |-> rest, np |-> np, src |-> src, mode |-> mode]
+    [e |-> e, kind |-> kind, vars |-> vars, rest |-> rest, np |-> np, src |-> src, mode |-> mode,
+     vobj |-> ""]
 E(e) == Ent(e, "expr", << >>, << >>, FALSE, FALSE, "")
 ESH(e) == Ent(e, "expr", << >>, << >>, FALSE, FALSE, "shared")
 EOM(e) == Ent(e, "expr", << >>, << >>, FALSE, FALSE, "omit")
@@ -133,6 +159,8 @@ ENP(e) == Ent(e, "expr", << >>, << >>, TRUE, FALSE, "")
 \* CompiledExpression.context, numpy when importable) are not arguments.
 C(e, vars, rest) == Ent(e, "compiled", vars, rest, FALSE, FALSE, "")
 CSH(e, vars, rest) == Ent(e, "compiled", vars, rest, FALSE, FALSE, "shared")
+CV(e, vars, rest, vobj) == [C(e, vars, rest) EXCEPT !.vobj = vobj]
+CSHV(e, vars, rest, vobj) == [CSH(e, vars, rest) EXCEPT !.vobj = vobj]
 CtxNames == {"math", "numpy"}
 mfn(n) == Look(V("math"), n)
 P2(k, v) == N("Product", << KI(k), v >>)
@@ -149,6 +177,19 @@ shE == IfE(N("LogAnd", << cond, U("LogNot", cond) >>), N("Min", << xp1, N("Max",
 tvk == User("C17Kw", << "acc", "global" >>, << KI(3) >>)
 kwl == User("C17Kw", << "acc", "local" >>, << KI(0) >>)
 ini == User("C17Init", << "nm" >>, << xp1 >>)
+\* (round 5) leaf subclasses and expressions over them (prime weights tell the arguments apart)
+MV(n)  == User("MultiVectorVariable", << n >>, << >>)
+TGV(n) == User("C17Tagged", << n, "tg" >>, << >>)
+OLV(n) == User("C17OldVar", << n, "ex" >>, << >>)
+KWV(n) == User("C17Kw", << n, "loc" >>, << KI(0) >>)
+fnu == User("C17Fn", << >>, << >>)
+Sq(v) == B("Power", v, KI(2))
+\* 2*r + 3*s*s - 5*t + 7*q  over a leaf constructor L for r, s, t and a plain q
+wexp(L(_)) == N("Sum", << P2(2, L("r")), P2(3, Sq(L("s"))), P2(-5, L("t")), P2(7, V("q")) >>)
+\* (b + 11*a) // 3 + c*d
+fexp(L(_)) == N("Sum", << B("FloorDiv", N("Sum", << L("b"), P2(11, L("a")) >>), KI(3)),
+                         N("Product", << L("c"), V("d") >>) >>)
+mvs == N("Sum", << MV("r"), V("q") >>)
 
 Cat == <<
   (* 1*) E(vx),
@@ -296,7 +337,37 @@ Cat == <<
   \* a parenthesised tuple as the LAST thing of the source text, built from source and from
   \* constructors: same structure, same persistent key
   (*115*) EP(IfE(cond, vx, N("Tup", << vy, KI(1) >>))),
-  (*116*) E(IfE(cond, vx, N("Tup", << vy, KI(1) >>)))
+  (*116*) E(IfE(cond, vx, N("Tup", << vy, KI(1) >>))),
+  \* ---- round 5: leaf subclasses inside expressions; compiled expressions whose explicit
+  \* variables are OBJECTS (plain / of the leaf subclass the expression is written over) ----
+  (*117*) E(wexp(MV)),                                            \* library leaf subclass below stock nodes
+  (*118*) E(wexp(V)),                                             \* != (117): other leaf class, same names
+  (*119*) E(N("Sum", << P2(2, MV("p")), Sq(V("p")), Call(MV("f"), << V("f"), TGV("p") >>) >>)),  \* one name, three classes
+  (*120*) E(Call(fnu, << vx, MV("x") >>)),                        \* a FunctionSymbol subclass as the function
+  (*121*) E(Call(FunSym, << vx, MV("x") >>)),                     \* != (120)
+  (*122*) ESH(N("Product", << mvs, mvs, MV("r") >>)),             \* DAG over a subclass leaf
+  \* plain variables, listed as objects: same compiled function as listed by name
+  (*123*) CV(wexp(V), << "t", "r" >>, << "q", "s" >>, "plain"),
+  (*124*) C(wexp(V), << "t", "r" >>, << "q", "s" >>),
+  \* the library's leaf subclass: all listed / partly listed (the others, of both classes, follow
+  \* in lexicographic order of their names) / none listed
+  (*125*) CV(wexp(MV), << "t", "s", "r" >>, << "q" >>, "same"),
+  (*126*) CV(wexp(MV), << "s" >>, << "q", "r", "t" >>, "same"),
+  (*127*) C(wexp(MV), << >>, << "q", "r", "s", "t" >>),
+  (*128*) CV(fexp(MV), << "c", "a" >>, << "b", "d" >>, "same"),
+  \* a listed variable the expression does not use is still an argument
+  (*129*) CV(fexp(MV), << "z", "b" >>, << "a", "c", "d" >>, "same"),
+  (*130*) CV(fexp(V), << "b", "z" >>, << "a", "c", "d" >>, "plain"),
+  \* user leaf subclasses: dataclass subclass, legacy subclass, keyword-only field
+  (*131*) CV(wexp(TGV), << "s", "t" >>, << "q", "r" >>, "same"),
+  (*132*) CV(fexp(OLV), << "c", "b", "a" >>, << "d" >>, "same"),
+  (*133*) CV(wexp(KWV), << "r" >>, << "q", "s", "t" >>, "same"),
+  \* DAG: the listed objects ARE the expression's own leaves; with a context name
+  (*134*) CSHV(N("Sum", << N("Product", << mvs, mvs >>), P2(3, N("Product", << mvs, MV("k") >>)) >>),
+               << "k", "r" >>, << "q" >>, "same"),
+  (*135*) CV(N("Sum", << Call(mfn("fabs"), << N("Sum", << P2(2, MV("u")), P2(-3, MV("h")) >>) >>),
+                        P2(5, MV("e")), P2(7, V("g")) >>),
+             << "u", "e" >>, << "g", "h" >>, "same")
 >>
 NCat == Len(Cat)
 CatIds == 1..NCat
@@ -310,7 +381,8 @@ ObjPyEq(i, j) == /\ Cat[i].kind = Cat[j].kind
 \* where an entry came from is not structure - except that a parsed list literal is another
 \* class than a Python list
 \* (nor is the way the objects were put together: mode)
-StructNorm(c) == [c EXCEPT !.np = FALSE, !.src = (c.src /\ "List" \in KindsIn(c.e)), !.mode = ""]
+StructNorm(c) == [c EXCEPT !.np = FALSE, !.src = (c.src /\ "List" \in KindsIn(c.e)), !.mode = "",
+                            !.vobj = ""]
 ObjSameStruct(i, j) == StructNorm(Cat[i]) = StructNorm(Cat[j])
 
 \* canonical representative (least index) of the == class / of the structure
@@ -322,7 +394,7 @@ Canon(i)  == CanonTab[i]
 StructOf(i) == StructTab[i]
 \* pytools' KeyBuilder (third party) keys numpy scalars by their own type: for it a numpy
 \* constant is a different structure; pymbolic's own walker normalises numpy scalars
-KBNorm(c) == [c EXCEPT !.mode = ""]
+KBNorm(c) == [c EXCEPT !.mode = "", !.vobj = ""]
 StructKBTab == [i \in CatIds |->
                 CHOOSE j \in CatIds : KBNorm(Cat[j]) = KBNorm(Cat[i])
                                        /\ \A k \in 1..(j - 1) : KBNorm(Cat[k]) # KBNorm(Cat[i])]
@@ -343,7 +415,7 @@ CompiledValue(i, args) ==
     LET names == ArgNames(i)
         env == [n \in SeqToSet(names) |->
                    IntV(args[CHOOSE k \in 1..Len(names) : names[k] = n])]
-    IN Eval(Cat[i].e, env @@ CtxEnv(i))
+    IN Eval(Plain(Cat[i].e), env @@ CtxEnv(i))
 
 \* sanity of the catalogue and of PyEq itself (checked by TLC once, in C17_Gen)
 CatalogueSane ==
@@ -364,4 +436,19 @@ CatalogueSane ==
     \* listed variables and context names are not among the unlisted ones
     /\ \A i \in CatIds : SeqToSet(Cat[i].rest) \cap (CtxNames \cup SeqToSet(Cat[i].vars)) = {}
     /\ Cardinality({i \in CatIds : UsesCtx(i) /\ Len(Cat[i].rest) >= 3}) >= 3
+    \* (round 5) a compiled entry is something that CAN be built from its description: no name
+    \* is used by leaves of two classes, and a name the expression gives to a subclass leaf is
+    \* listed as that object, not as a string / plain Variable (those name another variable)
+    /\ \A i \in {k \in CatIds : IsCompiled(k)} :
+          /\ Cardinality(VarLeaves(Cat[i].e)) = Cardinality(VarNames(Cat[i].e))
+          /\ Cat[i].vobj \in {"", "plain", "same"}
+          /\ Cat[i].vobj # "same" =>
+                SeqToSet(Cat[i].vars) \cap {LeafName(u) : u \in {w \in VarLeaves(Cat[i].e) : IsSubLeaf(w)}} = {}
+    /\ \A i \in {k \in CatIds : ~IsCompiled(k)} : Cat[i].vobj = ""
+    /\ ~ObjPyEq(117, 118) /\ ~ObjPyEq(120, 121) /\ ObjSameStruct(123, 124) /\ ~ObjPyEq(125, 124)
+    /\ ObjPyEq(125, 127) /\ ~ObjSameStruct(125, 127) /\ ~ObjPyEq(125, 131)
+    \* leaf subclasses occur as listed objects of every flavour
+    /\ \A cls \in VarLikeUser \ {"C17Kw2"} : \E i \in CatIds :
+          /\ IsCompiled(i) /\ Cat[i].vobj = "same" /\ Len(Cat[i].vars) > 0
+          /\ \E u \in VarLeaves(Cat[i].e) : IsSubLeaf(u) /\ u.cls = cls /\ LeafName(u) \in SeqToSet(Cat[i].vars)
 =============================================================================
